@@ -1,10 +1,169 @@
 import Driver.Common
-/-! C10 driver (stub: answers bad-op until the property's model is wired in). -/
-open Driver
+import Sourmash.Model.Crash
+import Sourmash.Spec.Crash
+/-! C10 driver: the crash / resume / reopen model of the on-disk index against the real code.
 
-def stepC10 (s : Unit) (ws : List String) : Unit × Resp :=
+Model column: the durable state and the answers the executable model (`Sourmash/Model/Crash.lean`,
+single-threaded linearisation) predicts.  Spec column (final observations only): the reference
+computed from the dataset lists alone (`Sourmash/Spec/Crash.lean`: `HASHES[h] = {d : h ∈ D_d}`, all
+datasets processed, `|q ∩ D_d|`, greedy gather, the signatures themselves).  The property does not
+constrain the incidental parts of an observation line (storage-spec string, number of STORAGE keys,
+the per-step results of a reopen sequence); for those the spec column repeats the model's value.
+For a crash state with more than one thread the interleaving is unknown: the harness reports the
+verdict of the marker invariants (`inv-ok`), which is what the spec column demands. -/
+open Driver Crash
+
+structure DState where
+  coll : Coll := []
+  base : Nat := 0
+  update : Bool := false
+  threads : Nat := 1
+  q : List Nat := []
+  sess : Sess := { disk := Disk.empty }
+
+def parseColl (s : String) : Coll :=
+  let ds := (s.splitOn "/").map natList
+  (List.range ds.length).zip ds |>.map (fun p => { loc := p.1, hashes := p.2 })
+
+def world (c : Coll) : World := c.map (fun d => (d.loc, d.hashes))
+
+def rtId : Manifest → Option Manifest := some
+
+def specStr : Option Spec → String
+  | none => "-"
+  | some .fs => "fs://"
+  | some .rocksdb => "rocksdb://"
+
+/-- `h:ids;…` from the lexicographically sorted graph -/
+def showGraph (H : List (Nat × Nat)) : String :=
+  let groups := H.foldl (fun (acc : List (Nat × List Nat)) p =>
+    match acc with
+    | (h, ids) :: rest => if h == p.1 then (h, ids ++ [p.2]) :: rest else (p.1, [p.2]) :: acc
+    | [] => [(p.1, [p.2])]) []
+  if groups.isEmpty then "-" else
+  ";".intercalate (groups.reverse.map (fun g => toString g.1 ++ ":" ++ showNats g.2))
+
+def optNat : Option Nat → String
+  | none => "-"
+  | some n => toString n
+
+def showScan (d : Disk) : String :=
+  "H=" ++ showGraph d.hashes ++ " P=" ++ (match d.processed with | none => "none" | some p => showNats p)
+    ++ " M=" ++ optNat d.version ++ "/" ++ optNat (d.manifest.map List.length) ++ "/" ++ specStr d.spec
+    ++ " X=" ++ toString d.storage.length
+
+def showCounter (c : List (Nat × Nat)) : String :=
+  if c.isEmpty then "-" else ",".intercalate (c.map (fun e => toString e.1 ++ ":" ++ toString e.2))
+
+def showGather (g : Option (List (Nat × Nat × Nat))) : String :=
+  match g with
+  | none => "PANIC"
+  | some [] => "-"
+  | some l => ",".intercalate (l.map (fun e => "d" ++ toString e.1 ++ ":" ++ toString e.2.1 ++ ":" ++ toString e.2.2))
+
+def showSigs (l : List (Option (Nat × Sketch))) : String :=
+  if l.isEmpty then "-" else
+  ";".intercalate (l.map (fun e => match e with
+    | none => "err"
+    | some (loc, sk) => "d" ++ toString loc ++ ":" ++ showNats sk ++ ":md5ok"))
+
+/-- C, G, S through a handle -/
+def answers (st : DState) (h : Handle) : String :=
+  let d := st.sess.disk
+  let w := world st.coll
+  let sig := sigFor w d h
+  let sigs := (List.range h.manifest.length).map (fun i =>
+    match h.manifest[i]?, sig i with
+    | some loc, some sk => some (loc, sk)
+    | _, _ => none)
+  "C=" ++ showCounter (counterFor d.hashes st.q) ++ " G=" ++ showGather (gather d.hashes sig st.q)
+    ++ " S=" ++ showSigs sigs
+
+def observe (st : DState) : String :=
+  let ans := match st.sess.handle with
+    | some h => answers st h
+    | none => match openIdx rtId st.sess.disk true with
+      | some h => answers st h
+      | none => "open-err"
+  showScan st.sess.disk ++ " " ++ ans
+
+/-- the reference observation: semantic fields from the dataset lists, incidental ones from the model -/
+def refObserve (st : DState) : String :=
+  let c := st.coll
+  let d := st.sess.disk
+  let n := c.length
+  let h := (refKeys c).map (fun h => toString h ++ ":" ++ showNats (refAt c h))
+  let g := refGather c st.q (n + 1) (List.range n) st.q []
+  "H=" ++ (if h.isEmpty then "-" else ";".intercalate h)
+    ++ " P=" ++ (if n == 0 then "none" else showNats (List.range n))
+    ++ " M=1/" ++ toString n ++ "/" ++ specStr d.spec ++ " X=" ++ toString d.storage.length
+    ++ " C=" ++ showCounter (refCounter c st.q) ++ " G=" ++ showGather (some g)
+    ++ " S=" ++ showSigs (c.map (fun ds => some (ds.loc, ds.hashes)))
+
+/-- the writes of the build under test on the current directory (`none`: open / check_superset fails) -/
+def buildLog (st : DState) : Option (List Write) :=
+  if st.update then
+    match openIdx rtId st.sess.disk false with
+    | none => none
+    | some h => updateLog h st.coll .fs
+  else some (createLog st.sess.disk st.coll .fs)
+
+def parseOp : String → Option ROp
+  | "flush" => some .flush
+  | "close" => some .close
+  | "openro" => some .openRo
+  | "openrw" => some .openRw
+  | "intern" => some .intern
+  | "move" => some .move
+  | _ => none
+
+def showRes : RRes → String
+  | .ok => "ok" | .err => "err" | .closed => "closed" | .already => "already" | .isOpen => "open" | .panic => "PANIC"
+
+def setField (st : DState) (w : String) : DState :=
+  match w.splitOn "=" with
+  | ["coll", v] => { st with coll := parseColl v }
+  | ["base", v] => { st with base := v.toNat! }
+  | ["via", v] => { st with update := v == "update" }
+  | ["threads", v] => { st with threads := v.toNat! }
+  | ["q", v] => { st with q := natList v }
+  | _ => st
+
+def stepC10 (st : DState) (ws : List String) : DState × Resp :=
   match ws with
-  | "case" :: _ => (s, { model := "ok" })
-  | _ => (s, { model := "bad-op" })
+  | "case" :: _ :: params =>
+    let st := params.foldl setField {}
+    let d0 := if st.base > 0 || st.update then
+        run Disk.empty (createLog Disk.empty (st.coll.take st.base) .fs) else Disk.empty
+    ({ st with sess := { disk := d0 } }, { model := "ok" })
+  | ["crash", n] =>
+    match buildLog st with
+    | none => (st, { model := "child-failed:Some(101)" })
+    | some log =>
+      let d := crashAt st.sess.disk log n.toNat!
+      let st := { st with sess := { st.sess with disk := d, handle := none } }
+      if st.threads == 1 then (st, { model := showScan d }) else (st, { model := "-", spec := "inv-ok" })
+  | ["crashc", _] =>
+    match buildLog st with
+    | none => (st, { model := "child-failed:Some(101)" })
+    | some log =>
+      let d := run st.sess.disk log
+      ({ st with sess := { st.sess with disk := d, handle := none } }, { model := showScan d })
+  | [op] =>
+    if op == "resume" || op == "resumec" then
+      match buildLog st with
+      | none => (st, { model := "err" })
+      | some log =>
+        let st := { st with sess := { st.sess with disk := run st.sess.disk log, handle := none } }
+        (st, { model := observe st, spec := refObserve st })
+    else if op == "obs" then (st, { model := observe st, spec := refObserve st })
+    else (st, { model := "bad-op" })
+  | ["reopen", seq] =>
+    let ops := (seq.splitOn ",").filterMap parseOp
+    let (s', rs) := reopenSeq rtId (world st.coll) st.sess ops
+    let st := { st with sess := s' }
+    let r := ",".intercalate (rs.map showRes)
+    (st, { model := r ++ "|" ++ observe st, spec := r ++ "|" ++ refObserve st })
+  | _ => (st, { model := "bad-op" })
 
-def main : IO Unit := Driver.run () stepC10
+def main : IO Unit := Driver.run ({} : DState) stepC10
